@@ -78,3 +78,22 @@ pub proof fn lemma_dc_split(s: Seq<Word>, k: int)
     lemma_valn_bound(s.subrange(k, s.len() as int), s.len() - k);
     lemma_pw_add(k, s.len() - k);
 }
+
+/// subtracting Rlo from the words m.. of rem:  v = lo + Bm*hi;  hi3 - b*P == hi2 - Rlo;  Bn = Bm*P
+pub proof fn lemma_dc_sq_sub(v2: int, v3: int, lo: int, hi2: int, hi3: int, b: int, rlo: int, bm: int, p: int, bn: int)
+    requires v2 == lo + bm * hi2, v3 == lo + bm * hi3, hi3 - b * p == hi2 - rlo, bn == bm * p,
+    ensures v3 - b * bn == v2 - bm * rlo,
+{
+    assert(bm * (hi2 - rlo + b * p) == bm * hi2 - bm * rlo + b * (bm * p)) by (nonlinear_arith);
+}
+
+/// two 3n/2n steps make a 2n/n division:
+///   A = a_lo + Plo*T0;  T0 = (Qhi + o*Phi)*R + r1;  a_lo + Plo*r1 = Qlo*R + r2   ==>  A = (Qlo + Plo*Qhi + o*Bn)*R + r2
+pub proof fn lemma_dc_same_len(a: int, a_lo: int, t0: int, qhi: int, o: int, r1: int, qlo: int, r2: int, r: int,
+    plo: int, phi: int, bn: int)
+    requires a == a_lo + plo * t0, t0 == (qhi + o * phi) * r + r1, a_lo + plo * r1 == (qlo + 0) * r + r2, bn == plo * phi,
+    ensures a == ((qlo + plo * qhi) + o * bn) * r + r2,
+{
+    assert(plo * ((qhi + o * phi) * r + r1) == (plo * qhi) * r + (o * (plo * phi)) * r + plo * r1) by (nonlinear_arith);
+    assert(((qlo + plo * qhi) + o * bn) * r == qlo * r + (plo * qhi) * r + (o * bn) * r) by (nonlinear_arith);
+}
